@@ -1,10 +1,11 @@
 /-
-  Driver/Chain.lean — `NEW chain <dev:0|1> <nmw> <ngrp> <nrt> <action:0|1> [bug]` sessions (C03, C15).
+  Driver/Chain.lean — `NEW chain <dev:0|1> <nmw> <ngrp> <nrt> <action:0|1> [GET|HEAD|POST] [bug]` sessions (C03, C15).
 
   lines:  H p <acts> <ret>   plain handler; acts = `-` or comma list of
                                w<code> b<n> n c m h pS pE pR pT pA      (write, body, next, cancel, map,
                                hookPanic, panic string/error/runtime/struct/ErrAbortHandler)
-                             ret = `-` (no return value) | `N` (renders nothing) | `W<code>:<len>`
+                             ret = `-` (no return value) | `N` (renders nothing) | `W<code>:<len>` |
+                                   `B<len>` (a returned body without a status: implicit 200)
           H r                flamego.Recovery()
           H u                a handler with an unmapped parameter type
           (nmw + ngrp + nrt lines in chain order, then one more for the action if action = 1)
@@ -12,7 +13,8 @@
   out:    `new` / `h` / for REQ: `<events> | <what the client's writer received> | esc=<kind>`
           events: `>i` enter, `<i` exit, `!i` unwound by a panic; Recovery's own frames and the
           model-internal events are not printed (the real Recovery cannot be instrumented).
-  A sixth header argument `bug` selects `onceBug := true` (response_writer.go as it is, F15);
+  The method (default GET) only matters as HEAD or not: the writer is created with `head := (method = HEAD)`.
+  A further header argument `bug` selects `onceBug := true` (response_writer.go as it is, F15);
   the harness ignores it.  It is used only by the known-finding matcher.
 -/
 import Flamego.Model.Chain
@@ -42,6 +44,7 @@ def parseRet (s : String) : Option Ret :=
   if s == "-" then some .none
   else if s == "N" then some .nothing
   else match s.toList with
+    | 'B' :: r => (String.ofList r).toNat?.map Ret.body
     | 'W' :: r =>
       match (String.ofList r).splitOn ":" with
       | [a, b] => do some (.writes (← a.toNat?) (← b.toNat?))
@@ -106,7 +109,7 @@ structure Build where
   ks : List Kind := []
   bad : Bool := false
 
-def Build.cfg (b : Build) (dev bug : Bool) : Option Cfg :=
+def Build.cfg (b : Build) (dev bug head : Bool) : Option Cfg :=
   let want := b.nmw + b.ngrp + b.nrt + (if b.act then 1 else 0)
   if b.bad || b.ks.length != want then none
   else
@@ -114,13 +117,14 @@ def Build.cfg (b : Build) (dev bug : Bool) : Option Cfg :=
     some { mw := ks.take b.nmw, grp := (ks.drop b.nmw).take b.ngrp,
            rt := (ks.drop (b.nmw + b.ngrp)).take b.nrt,
            action := if b.act then ks[b.nmw + b.ngrp + b.nrt]? else none,
-           dev := dev, onceBug := bug }
+           dev := dev, onceBug := bug, head := head }
 
 def session (args : List String) (lines : List (List String)) : List String :=
   match args with
   | dev :: nmw :: ngrp :: nrt :: act :: more =>
     let dev := dev == "1"
-    let bug := more.head? == some "bug"
+    let bug := more.contains "bug"
+    let head := more.contains "HEAD"
     let rec go (b : Build) : List (List String) → List String
       | [] => []
       | l :: rest =>
@@ -129,7 +133,7 @@ def session (args : List String) (lines : List (List String)) : List String :=
           | some k => "h" :: go { b with ks := b.ks ++ [k] } rest
           | none => "bad-op" :: go { b with bad := true } rest
         else if l == ["REQ"] then
-          match b.cfg dev bug with
+          match b.cfg dev bug head with
           | some c => showSt c (serve c) :: go b rest
           | none => "bad-session" :: go b rest
         else "bad-op" :: go b rest
